@@ -998,7 +998,10 @@ def discharge(ob, timeout_ms=10000, use_cvc5=True):
     import time
     t0 = time.time()
     reason = None
-    for phase, budget in (("quick", min(timeout_ms, 2500)), ("nlsat", timeout_ms), ("full", timeout_ms)):
+    for phase, budget in (("quick", min(timeout_ms, 2500)), ("reseed1", min(timeout_ms, 2500)), ("reseed2", min(timeout_ms, 2500)),
+                          ("nlsat", timeout_ms), ("full", timeout_ms)):
+        if phase.startswith("reseed") and timeout_ms <= 2500:
+            continue
         if phase == "nlsat":
             r1 = _nlsat_relaxed(ob, budget)
             if r1 is not None:
@@ -1009,6 +1012,9 @@ def discharge(ob, timeout_ms=10000, use_cvc5=True):
             break
         s = z3.Solver()
         s.set("timeout", budget)
+        if phase.startswith("reseed"):
+            # nonlinear queries that are instant with one variable order can diverge with another: retry before the long phases
+            s.set("random_seed", int(phase[-1]) * 7919)
         s.add(*ob.hyps)
         s.add(z3.Not(ob.goal))
         r = s.check()
